@@ -348,7 +348,10 @@ def helpers_step_cpp(chk, pid):
     n = 0
     for cc in (("g++", "clang++") if chk.tier != "quick" else ("g++",)):
         exe = os.path.join(w, "helpers_" + cc.replace("+", "p"))
-        b = common.run([cc, "-std=c++14", "-w", "-g", "-O0", "-fsanitize=address,undefined", "-fno-sanitize-recover=undefined", "-I", w, "-o", exe, src], timeout=300)
+        # clang's -fsanitize=function flags every call through the type-erased `bool (*)(void *, F)` slot of Callback (the header casts
+        # `bool (*)(Container *, F)` to it by design, as the C helpers do): a policy about C++ function-pointer types, not about what C15/C16 state
+        extra = ["-fno-sanitize=function"] if cc == "clang++" else []
+        b = common.run([cc, "-std=c++14", "-w", "-g", "-O0", "-fsanitize=address,undefined", "-fno-sanitize-recover=undefined"] + extra + ["-I", w, "-o", exe, src], timeout=300)
         if b["rc"] != 0:
             chk.violation(pid + ":cpp-helpers-do-not-compile", "%s -std=c++14 rejects the documented uses of the header's C++ bridges: %s" % (cc, b["err"][:600]), dict(compiler=cc))
             continue
